@@ -193,7 +193,7 @@ def observe(proj, res):
     """observations of one `erg run`: the inputs of judge_C20"""
     exp = expected(proj)
     r = res["run"]
-    lines = [l.strip() for l in r["out"].splitlines() if re.match(r"[MVTB]:", l.strip())]
+    lines = [l.strip() for l in r["out"].splitlines() if re.match(r"[MVTBU]:", l.strip())]
     markers = [int(l[2:]) for l in lines if l.startswith("M:")]
     others = sorted(l for l in lines if not l.startswith("M:"))
     want = sorted(l for l in exp["lines"] if not l.startswith("M:"))
